@@ -288,6 +288,16 @@ func Origins(v ssa.Value) []ssa.Value {
 		case *ssa.UnOp:
 			if x.Op == token.MUL {
 				if cell := cellOf(x.X); cell != nil {
+					if a, isLocal := x.X.(*ssa.Alloc); isLocal && a == cell && !capturedOrEscaped(cell) {
+						vals, complete := reachingStores(x, cell)
+						if !complete {
+							out = append(out, v)
+						}
+						for _, s := range vals {
+							walk(s)
+						}
+						return
+					}
 					vals, _, escaped := StoresTo(cell)
 					if escaped || len(vals) == 0 {
 						out = append(out, v)
@@ -511,4 +521,70 @@ func ConstString(v ssa.Value) (string, bool) {
 			return "", false
 		}
 	}
+}
+
+// capturedOrEscaped reports whether a local cell is captured by a closure or
+// its address is used other than by direct loads and stores.
+func capturedOrEscaped(cell *ssa.Alloc) bool {
+	for _, ref := range *cell.Referrers() {
+		switch r := ref.(type) {
+		case *ssa.Store:
+			if r.Addr != ssa.Value(cell) {
+				return true
+			}
+		case *ssa.UnOp:
+			if r.Op != token.MUL {
+				return true
+			}
+		case *ssa.DebugRef:
+		default:
+			return true
+		}
+	}
+	return false
+}
+
+// reachingStores returns the values of the stores to cell that reach load
+// (flow-sensitive, for cells that are neither captured nor escaped). complete
+// is false when some path from the entry reaches the load without a store.
+func reachingStores(load *ssa.UnOp, cell *ssa.Alloc) (vals []ssa.Value, complete bool) {
+	complete = true
+	type item struct {
+		b *ssa.BasicBlock
+		k int // scan instructions k-1 … 0
+	}
+	seen := map[*ssa.BasicBlock]bool{}
+	start := load.Block()
+	work := []item{{start, indexIn(start, load)}}
+	first := true
+	for len(work) > 0 {
+		it := work[len(work)-1]
+		work = work[:len(work)-1]
+		if !first {
+			if seen[it.b] {
+				continue
+			}
+			seen[it.b] = true
+		}
+		first = false
+		found := false
+		for k := it.k - 1; k >= 0; k-- {
+			if st, ok := it.b.Instrs[k].(*ssa.Store); ok && st.Addr == ssa.Value(cell) {
+				vals = append(vals, st.Val)
+				found = true
+				break
+			}
+		}
+		if found {
+			continue
+		}
+		if len(it.b.Preds) == 0 {
+			complete = false
+			continue
+		}
+		for _, p := range it.b.Preds {
+			work = append(work, item{p, len(p.Instrs)})
+		}
+	}
+	return
 }
